@@ -1,13 +1,81 @@
-"""Specification vocabulary shared by all contracts (DESIGN.md section 3)."""
+"""Specification vocabulary shared by all contracts (DESIGN.md section 3).
+
+Everything here is *specification*: uninterpreted symbols plus axioms.  Axioms come in two
+kinds, kept apart because their status differs:
+
+* definitional axioms: unfold a spec function on a node of a given class
+  (``rows`` of a unary-operation node is ``sem`` of its operation applied to the rows of its
+  target, ...).  They define the oracle and are taken from the property statements.
+* laws: facts about the row-sequence operators (``len`` of a filter is at most ``len`` of its
+  input, ...).  Every law is an entry of ``spec.laws.LAWS`` with a status
+  (lean-proved / assumed, bounded-checked); see that module.
+"""
 from __future__ import annotations
 
 import z3
 
 from pyvc import smt
-from pyvc.smt import SV, TBool, TInt, TStr, TTag
+from pyvc.smt import SV, TBool, TInt, TOptInt, TRefT, TSeqT, TStr, TTag, TTagSet
 
 is_key = z3.Function("is_key", smt.Tag, smt.BoolS)
 qname = z3.Function("qualified_name", smt.Tag, smt.StrS)
+
+# ---- rows and row sequences -------------------------------------------------------
+Row = z3.DeclareSort("Row")
+RS = z3.DeclareSort("RS")  # finite sequence of rows, all over the same column set
+rlen = z3.Function("rlen", RS, smt.IntS)
+rcols = z3.Function("rcols", RS, smt.TagSet)
+rnth = z3.Function("rnth", RS, smt.IntS, Row)
+row_get = z3.Function("row_get", Row, smt.Tag, smt.IntS)
+REMPTY = z3.Function("rempty", smt.TagSet, RS)  # the empty sequence over a column set
+RUNIT = z3.Const("runit", RS)  # [{}]: one row, no columns (the join identity)
+
+rows = z3.Function("rows", smt.Ref, RS)  # content of a relation
+
+SeqRef = TSeqT(TRefT(None))
+
+# semantic operators (DESIGN 3.1)
+s_filter = z3.Function("s_filter", smt.Ref, RS, RS)  # predicate, X
+s_calc = z3.Function("s_calc", smt.Tag, smt.Ref, RS, RS)  # tag, expression, X
+s_proj = z3.Function("s_proj", smt.TagSet, RS, RS)
+s_dedup = z3.Function("s_dedup", RS, RS)
+s_sort = z3.Function("s_sort", SeqRef.sort, RS, RS)  # terms, X
+s_slice = z3.Function("s_slice", smt.IntS, smt.OptInt, RS, RS)
+s_chain = z3.Function("s_chain", RS, RS, RS)
+s_join = z3.Function("s_join", smt.Ref, smt.TagSet, RS, RS, RS)  # predicate, common columns, X, Y
+
+# ---- predicates / expressions ------------------------------------------------------
+fv = z3.Function("fv", smt.Ref, smt.TagSet)  # free columns of a predicate / expression / container
+fvp = z3.Function("fvp", SeqRef.sort, smt.IntS, smt.TagSet)  # union of fv over the first i elements
+ev = z3.Function("ev", smt.Ref, Row, smt.BoolS)  # predicate value on a row
+evx = z3.Function("evx", smt.Ref, Row, smt.IntS)  # expression value on a row
+all_ev = z3.Function("all_ev", SeqRef.sort, Row, smt.BoolS)  # every element predicate holds
+any_ev = z3.Function("any_ev", SeqRef.sort, Row, smt.BoolS)
+ptrue = z3.Function("ptrue", smt.Ref, smt.BoolS)  # predicate true on every row
+pfalse = z3.Function("pfalse", smt.Ref, smt.BoolS)
+wit_t = z3.Function("wit_ptrue", smt.Ref, Row)  # skolem witnesses
+wit_f = z3.Function("wit_pfalse", smt.Ref, Row)
+wit_all = z3.Function("wit_all", SeqRef.sort, Row, smt.IntS)
+wit_any = z3.Function("wit_any", SeqRef.sort, Row, smt.IntS)
+lit_int = z3.Function("lit_int", smt.Ref, smt.IntS)  # integer meaning of a literal's value object
+pfun = z3.Function("pfun", smt.StrS, smt.IntS, smt.IntS, smt.BoolS)  # uninterpreted named predicate functions
+xfun = z3.Function("xfun", smt.StrS, smt.IntS, smt.IntS, smt.IntS)
+in_cont = z3.Function("in_container", smt.Ref, smt.IntS, Row, smt.BoolS)
+fvts = z3.Function("fvts", SeqRef.sort, smt.TagSet)  # free columns of a sort-term list
+is_and = z3.Function("is_and", smt.Ref, smt.Ref, smt.Ref, smt.BoolS)
+is_tcat = z3.Function("is_tcat", SeqRef.sort, SeqRef.sort, SeqRef.sort, smt.BoolS)
+agree = z3.Function("agree", Row, Row, smt.TagSet, smt.BoolS)
+
+sem = z3.Function("sem", smt.Ref, RS, RS)  # unary operation applied to a row sequence
+bsem = z3.Function("bsem", smt.Ref, RS, RS, RS)  # binary operation
+
+
+class TRST(smt.TD):
+    sort = RS
+    name = "rows"
+
+
+TRS = TRST()
 
 
 class Spec:
@@ -15,21 +83,186 @@ class Spec:
 
     def __init__(self, ex):
         self.ex = ex
-        self._axioms: list[z3.BoolRef] = []
-        self._built = False
+        self._axioms: list[z3.BoolRef] | None = None
         self.extra_axiom_providers: list = []
+        self.laws_used: set[str] = set()
+        ex.hooks.setdefault("seq_concat", self._concat_lemma)
+        ex.hooks.setdefault("seq_snoc", self._snoc_lemma)
+
+    # Lemma instances about all_ev / any_ev / fvp over a concatenation.  Each instance is a consequence
+    # of the pointwise definition of the concatenation and the definitions of the spec functions; the
+    # general statements are proved by z3 from exactly those definitions in spec/lemmas.py (run by
+    # every check that uses them), so they are not assumptions.
+    def _concat_lemma(self, ex, a, b, c, st):
+        if c.z.sort() != SeqRef.sort:
+            return
+        rho = z3.Const("rho", Row)
+        st.assume(z3.ForAll([rho], all_ev(c.z, rho) == z3.And(all_ev(a.z, rho), all_ev(b.z, rho)), patterns=[all_ev(c.z, rho)]))
+        st.assume(z3.ForAll([rho], any_ev(c.z, rho) == z3.Or(any_ev(a.z, rho), any_ev(b.z, rho)), patterns=[any_ev(c.z, rho)]))
+
+    def _snoc_lemma(self, ex, a, x, c, st):
+        if c.z.sort() != SeqRef.sort:
+            return
+        rho = z3.Const("rho", Row)
+        st.assume(z3.ForAll([rho], all_ev(c.z, rho) == z3.And(all_ev(a.z, rho), ev(x.z, rho)), patterns=[all_ev(c.z, rho)]))
+        st.assume(z3.ForAll([rho], any_ev(c.z, rho) == z3.Or(any_ev(a.z, rho), ev(x.z, rho)), patterns=[any_ev(c.z, rho)]))
+
+    # -- helpers -------------------------------------------------------------------
+    def cid(self, name: str) -> int:
+        return self.ex.types.cid(self.ex.repo.cls(name))
+
+    def cls(self, name: str):
+        return self.ex.repo.cls(name)
+
+    def A(self, cls_name: str, attr: str):
+        """Pure attribute symbol as a python callable on z3 terms."""
+        ci = self.cls(cls_name)
+        ex = self.ex
+        obj = SV(TRefT(ci), z3.Const("dummy", smt.Ref))
+        from pyvc.state import State
+
+        proto = ex.spec_attr(obj, attr, State())
+        decl = proto.z.decl()
+        if proto.z.num_args() != 1 or not proto.z.arg(0).eq(obj.z):
+            raise ValueError(f"attribute {cls_name}.{attr} is not a pure symbol ({proto.z})")
+        return decl
+
+    def is_a(self, z, cls_name: str):
+        return self.ex.types.is_instance_z(z, self.cls(cls_name))
 
     def tag_attr(self, tag: SV, attr: str) -> SV:
         if attr == "is_key":
             return SV(TBool, is_key(tag.z))
         return SV(TStr, qname(tag.z))
 
+    def rows_of(self, rel: SV) -> SV:
+        return SV(TRS, rows(rel.z))
+
+    # -- axioms --------------------------------------------------------------------
     def axioms(self) -> list[z3.BoolRef]:
-        if not self._built:
-            self._built = True
+        if self._axioms is None:
+            ax: list[z3.BoolRef] = []
             a = z3.Const("a", smt.Ref)
-            self._axioms.append(smt.typ(smt.NONE) == 0)
-            self._axioms.append(z3.ForAll([a], smt.deq(a, a), patterns=[smt.deq(a, a)]))
+            ax.append(smt.typ(smt.NONE) == 0)
+            ax.append(z3.ForAll([a], smt.deq(a, a), patterns=[smt.deq(a, a)]))
+            ax.extend(self.definitional_axioms())
+            from spec.laws import law_axioms
+
+            ax.extend(law_axioms(self))
             for p in self.extra_axiom_providers:
-                self._axioms.extend(p(self))
+                ax.extend(p(self))
+            self._axioms = ax
         return self._axioms
+
+    def expression_axioms(self) -> list[z3.BoolRef]:
+        """Meaning of predicates / expressions (DESIGN 3.1) and their free-column sets."""
+        ax: list[z3.BoolRef] = []
+        A, typ, cid = self.A, smt.typ, self.cid
+        p = z3.Const("p", smt.Ref)
+        rho = z3.Const("rho", Row)
+        s = z3.Const("s", SeqRef.sort)
+        i = z3.Int("i")
+        at, ln = SeqRef.info.at, SeqRef.info.len
+        # ptrue / pfalse with skolem witnesses
+        ax.append(z3.ForAll([p, rho], z3.Implies(ptrue(p), ev(p, rho)), patterns=[z3.MultiPattern(ptrue(p), ev(p, rho))]))
+        ax.append(z3.ForAll([p], z3.Implies(z3.Not(ptrue(p)), z3.Not(ev(p, wit_t(p)))), patterns=[ptrue(p)]))
+        ax.append(z3.ForAll([p, rho], z3.Implies(pfalse(p), z3.Not(ev(p, rho))), patterns=[z3.MultiPattern(pfalse(p), ev(p, rho))]))
+        ax.append(z3.ForAll([p], z3.Implies(z3.Not(pfalse(p)), ev(p, wit_f(p))), patterns=[pfalse(p)]))
+        # all_ev / any_ev
+        ax.append(z3.ForAll([s, rho, i], z3.Implies(z3.And(all_ev(s, rho), 0 <= i, i < ln(s)), ev(at(s, i), rho)),
+                            patterns=[z3.MultiPattern(all_ev(s, rho), at(s, i))]))
+        w = wit_all(s, rho)
+        ax.append(z3.ForAll([s, rho], z3.Implies(z3.Not(all_ev(s, rho)), z3.And(0 <= w, w < ln(s), z3.Not(ev(at(s, w), rho)))), patterns=[all_ev(s, rho)]))
+        ax.append(z3.ForAll([s, rho, i], z3.Implies(z3.And(z3.Not(any_ev(s, rho)), 0 <= i, i < ln(s)), z3.Not(ev(at(s, i), rho))),
+                            patterns=[z3.MultiPattern(any_ev(s, rho), at(s, i))]))
+        w2 = wit_any(s, rho)
+        ax.append(z3.ForAll([s, rho], z3.Implies(any_ev(s, rho), z3.And(0 <= w2, w2 < ln(s), ev(at(s, w2), rho))), patterns=[any_ev(s, rho)]))
+        # ev per predicate class
+        def per(cls, body, fn=ev):
+            ax.append(z3.ForAll([p, rho], z3.Implies(typ(p) == cid(cls), fn(p, rho) == body), patterns=[fn(p, rho)]))
+        per("PredicateLiteral", A("PredicateLiteral", "value")(p))
+        per("PredicateReference", row_get(rho, A("PredicateReference", "tag")(p)) != 0)
+        per("LogicalNot", z3.Not(ev(A("LogicalNot", "operand")(p), rho)))
+        per("LogicalAnd", all_ev(A("LogicalAnd", "operands")(p), rho))
+        per("LogicalOr", any_ev(A("LogicalOr", "operands")(p), rho))
+        per("ColumnInContainer", in_cont(A("ColumnInContainer", "container")(p), evx(A("ColumnInContainer", "item")(p), rho), rho))
+        pargs, pname = A("PredicateFunction", "args"), A("PredicateFunction", "name")
+        x0, x1 = evx(at(pargs(p), 0), rho), evx(at(pargs(p), 1), rho)
+        cmpz = pfun(pname(p), x0, x1)
+        for nm, f in (("__eq__", x0 == x1), ("__ne__", x0 != x1), ("__lt__", x0 < x1), ("__le__", x0 <= x1), ("__gt__", x0 > x1), ("__ge__", x0 >= x1)):
+            cmpz = z3.If(pname(p) == z3.StringVal(nm), f, cmpz)
+        per("PredicateFunction", cmpz)
+        # evx per expression class
+        per("ColumnLiteral", lit_int(A("ColumnLiteral", "value")(p)), evx)
+        per("ColumnReference", row_get(rho, A("ColumnReference", "tag")(p)), evx)
+        xargs, xname = A("ColumnFunction", "args"), A("ColumnFunction", "name")
+        y0, y1 = evx(at(xargs(p), 0), rho), evx(at(xargs(p), 1), rho)
+        xz = xfun(xname(p), y0, y1)
+        for nm, f in (("__neg__", -y0), ("__add__", y0 + y1), ("__sub__", y0 - y1), ("__mul__", y0 * y1)):
+            xz = z3.If(xname(p) == z3.StringVal(nm), f, xz)
+        per("ColumnFunction", xz, evx)
+        # containers
+        v = z3.Int("v")
+        rng = A("ColumnRangeLiteral", "value")(p)
+        a_, b_, st_ = smt.Range.r_start(rng), smt.Range.r_stop(rng), smt.Range.r_step(rng)
+        in_rng = z3.If(st_ > 0, z3.And(a_ <= v, v < b_, (v - a_) % st_ == 0), z3.And(st_ < 0, b_ < v, v <= a_, (a_ - v) % (-st_) == 0))
+        ax.append(z3.ForAll([p, v, rho], z3.Implies(typ(p) == cid("ColumnRangeLiteral"), in_cont(p, v, rho) == in_rng), patterns=[in_cont(p, v, rho)]))
+        items = A("ColumnExpressionSequence", "items")(p)
+        k = z3.Int("k")
+        ax.append(z3.ForAll([p, v, rho], z3.Implies(typ(p) == cid("ColumnExpressionSequence"),
+                                                     in_cont(p, v, rho) == z3.Exists([k], z3.And(0 <= k, k < ln(items), evx(at(items, k), rho) == v))),
+                            patterns=[in_cont(p, v, rho)]))
+        # free columns
+        def fvper(cls, body):
+            ax.append(z3.ForAll([p], z3.Implies(typ(p) == cid(cls), fv(p) == body), patterns=[fv(p)]))
+        fvper("PredicateLiteral", smt.EMPTY_TAGS)
+        fvper("PredicateReference", z3.SetAdd(smt.EMPTY_TAGS, A("PredicateReference", "tag")(p)))
+        fvper("LogicalNot", fv(A("LogicalNot", "operand")(p)))
+        fvper("LogicalAnd", fvp(A("LogicalAnd", "operands")(p), ln(A("LogicalAnd", "operands")(p))))
+        fvper("LogicalOr", fvp(A("LogicalOr", "operands")(p), ln(A("LogicalOr", "operands")(p))))
+        fvper("PredicateFunction", fvp(pargs(p), ln(pargs(p))))
+        fvper("ColumnInContainer", z3.SetUnion(fv(A("ColumnInContainer", "item")(p)), fv(A("ColumnInContainer", "container")(p))))
+        fvper("ColumnLiteral", smt.EMPTY_TAGS)
+        fvper("ColumnReference", z3.SetAdd(smt.EMPTY_TAGS, A("ColumnReference", "tag")(p)))
+        fvper("ColumnFunction", fvp(xargs(p), ln(xargs(p))))
+        fvper("ColumnRangeLiteral", smt.EMPTY_TAGS)
+        fvper("ColumnExpressionSequence", fvp(items, ln(items)))
+        ax.append(z3.ForAll([s], fvp(s, 0) == smt.EMPTY_TAGS, patterns=[fvp(s, 0)]))
+        ax.append(z3.ForAll([s, i], z3.Implies(i >= 0, fvp(s, i + 1) == z3.SetUnion(fvp(s, i), fv(at(s, i)))), patterns=[fvp(s, i + 1)]))
+        ax.append(z3.ForAll([s, i], z3.Implies(i >= 0, fvp(s, i + 1) == z3.SetUnion(fvp(s, i), fv(at(s, i)))), patterns=[z3.MultiPattern(fvp(s, i), at(s, i))]))
+        return ax
+
+    def definitional_axioms(self) -> list[z3.BoolRef]:
+        ax: list[z3.BoolRef] = self.expression_axioms()
+        r = z3.Const("r", smt.Ref)
+        op = z3.Const("op", smt.Ref)
+        X = z3.Const("X", RS)
+        Y = z3.Const("Y", RS)
+        typ = smt.typ
+        A = self.A
+        # rows of the node kinds (definition of the oracle on trees)
+        u_op, u_t = A("UnaryOperationRelation", "operation"), A("UnaryOperationRelation", "target")
+        ax.append(z3.ForAll([r], z3.Implies(typ(r) == self.cid("UnaryOperationRelation"), rows(r) == sem(u_op(r), rows(u_t(r)))), patterns=[rows(r)]))
+        b_op, b_l, b_r = A("BinaryOperationRelation", "operation"), A("BinaryOperationRelation", "lhs"), A("BinaryOperationRelation", "rhs")
+        ax.append(z3.ForAll([r], z3.Implies(typ(r) == self.cid("BinaryOperationRelation"), rows(r) == bsem(b_op(r), rows(b_l(r)), rows(b_r(r)))), patterns=[rows(r)]))
+        m_t = A("MarkerRelation", "target")
+        ax.append(z3.ForAll([r], z3.Implies(self.is_a(r, "MarkerRelation"), rows(r) == rows(m_t(r))), patterns=[rows(r)]))
+        # sem per operation class
+        ax.append(z3.ForAll([op, X], z3.Implies(typ(op) == self.cid("Calculation"), sem(op, X) == s_calc(A("Calculation", "tag")(op), A("Calculation", "expression")(op), X)), patterns=[sem(op, X)]))
+        ax.append(z3.ForAll([op, X], z3.Implies(typ(op) == self.cid("Deduplication"), sem(op, X) == s_dedup(X)), patterns=[sem(op, X)]))
+        ax.append(z3.ForAll([op, X], z3.Implies(typ(op) == self.cid("Projection"), sem(op, X) == s_proj(A("Projection", "columns")(op), X)), patterns=[sem(op, X)]))
+        ax.append(z3.ForAll([op, X], z3.Implies(typ(op) == self.cid("Selection"), sem(op, X) == s_filter(A("Selection", "predicate")(op), X)), patterns=[sem(op, X)]))
+        ax.append(z3.ForAll([op, X], z3.Implies(typ(op) == self.cid("Slice"), sem(op, X) == s_slice(A("Slice", "start")(op), A("Slice", "stop")(op), X)), patterns=[sem(op, X)]))
+        ax.append(z3.ForAll([op, X], z3.Implies(typ(op) == self.cid("Sort"), sem(op, X) == s_sort(A("Sort", "terms")(op), X)), patterns=[sem(op, X)]))
+        ax.append(z3.ForAll([op, X], z3.Implies(typ(op) == self.cid("Identity"), sem(op, X) == X), patterns=[sem(op, X)]))
+        pj_b, pj_f, pj_l = A("PartialJoin", "binary"), A("PartialJoin", "fixed"), A("PartialJoin", "fixed_is_lhs")
+        ax.append(z3.ForAll([op, X], z3.Implies(typ(op) == self.cid("PartialJoin"),
+                                                 sem(op, X) == z3.If(pj_l(op), bsem(pj_b(op), rows(pj_f(op)), X), bsem(pj_b(op), X, rows(pj_f(op))))),
+                            patterns=[sem(op, X)]))
+        # bsem per binary operation class
+        ax.append(z3.ForAll([op, X, Y], z3.Implies(typ(op) == self.cid("Chain"), bsem(op, X, Y) == s_chain(X, Y)), patterns=[bsem(op, X, Y)]))
+        j_p, j_min = A("Join", "predicate"), A("Join", "min_columns")
+        ax.append(z3.ForAll([op, X, Y], z3.Implies(typ(op) == self.cid("Join"), bsem(op, X, Y) == s_join(j_p(op), j_min(op), X, Y)), patterns=[bsem(op, X, Y)]))
+        ig = A("IgnoreOne", "ignore_lhs")
+        ax.append(z3.ForAll([op, X, Y], z3.Implies(typ(op) == self.cid("IgnoreOne"), bsem(op, X, Y) == z3.If(ig(op), Y, X)), patterns=[bsem(op, X, Y)]))
+        return ax
